@@ -179,6 +179,12 @@ class StringLiteral(Literal[str]):
     def __eq__(self, other: object) -> bool:
         return isinstance(other, StringLiteral) and self.value == other.value
 
+    def __str__(self) -> str:
+        # Liquid string literals have no escape sequences. Use whichever quote
+        # does not appear in the string.
+        quote = '"' if "'" in self.value else "'"
+        return f"{quote}{self.value}{quote}"
+
     def __hash__(self) -> int:
         return hash(self.value)
 
